@@ -167,6 +167,43 @@ def build_cases(quick):
     return inmem, filec
 
 
+def real_kernel_conformance(quick):
+    """the same rule on the real compiled kernel: likelihoods come from marginal_ln_likelihood on a real data set"""
+    import astropy.units as u
+    import thejoker as tj
+    from .. import problems as pb
+
+    part = core.Part()
+    rows = np.array([[1.3, 0.9, 1.0, 0.5, 0.0], [700.0, 0.0, 4.0, 3.0, 0.0], [3.7, 0.0, 0.2, 6.0, 0.0], [45.0, 0.6, 5.5, 1.2, 0.0], [180.0, 0.3, 3.3, 4.4, 0.0]])
+    prior, _ = pb.make_prior()
+    data, _ = pb.make_data(n=4, layout="short", err="large")
+    lib = pb.make_samples(rows)
+    L = np.array(tj.TheJoker(prior).marginal_ln_likelihood(data, lib, in_memory=True))
+    r = np.exp(L - L.max())
+    N = len(rows)
+    for codes in itertools.product("ar", repeat=N):
+        for path in (("inmem",) if quick else ("inmem", "obj")):
+            for mp in (None, 2):
+                uvec = np.array([drv.u_for("z" if r[i] == 1.0 else codes[i], r[i]) for i in range(N)])
+                rng = seams.ScriptedGenerator(4, uniform_fn=lambda size, k: uvec[: int(size)])
+                joker = tj.TheJoker(prior, rng=rng, tempfile_path=seams.fresh_dir("c02r"))
+                case = dict(kind="real", codes=list(codes), path=path, max_posterior_samples=mp)
+                try:
+                    res = joker.rejection_sample(data, lib, in_memory=(path == "inmem"), max_posterior_samples=mp)
+                except Exception as e:
+                    part.violation(case, f"rejection_sample (real kernel) raised {type(e).__name__}: {e}")
+                    continue
+                P = np.atleast_1d(res["P"].to_value(u.day))
+                got = [int(np.argmin(np.abs(rows[:, 0] - p))) for p in P]
+                want = [i for i in range(N) if r[i] > uvec[i]][: (mp or N)]
+                part.record(case, outcome=(tuple(got),), nontrivial=0 < len(want) < N)
+                if got != want or not np.array_equal(P, rows[got, 0]):
+                    part.violation(case, "real kernel: returned rows != rows with exp(ll - max) > u (ll from marginal_ln_likelihood)", expected=want, observed=got)
+                else:
+                    part.validated += 1
+    return part
+
+
 def main():
     chk = core.Check(
         PID, "model_checking",
@@ -184,7 +221,12 @@ def main():
     chk.merge(core.parallel(shard, core.interleave(filec, core.NPROC * 2)))
     chk.total.states = chk.total.evals
     chk.total.transitions = chk.total.evals
-    chk.total.validated = chk.total.evals  # every enumerated execution is an execution of the real sampler code
+    # conformance slice with the real compiled kernel (the stub replaces only the numeric kernel)
+    rk = real_kernel_conformance(chk.quick)
+    rk.extra["real_kernel_conformance_executions"] = rk.validated
+    chk.merge(rk)
+    # every enumerated execution is an execution of thejoker's own sampler code (there is no separate model to replay)
+    chk.total.validated = chk.total.evals
     chk.assumptions += [
         "stub kernel contract (value depends only on the row; rows passed through unchanged) is what C01/C05 establish for the real kernel",
         "n_prior_samples / randomize_prior_order / n_batches are documented as file-path options and are not demanded on in_memory=True",
